@@ -9,7 +9,7 @@ EXPLANATION = ('The pair enumeration is a finite discrete structure and is decid
                '{tool,base} x {0,2 environment objects} x exemption tables, and the extracted task table is compared with the specification table '
                'of the property (R10.1 pairs, R10.3 operands, R10.2/R10.5 exemptions and safety-table provenance).  The per-pair decision '
                '(R10.4), mode dispatch (R10.6) and schedule independence (R10.7 effect analysis of the rayon closures) are decided structurally. '
-               '(R10.9) the helpers a safety table is built with: SafetyDistances::distances files every value under its own pair (interpreted on three pairs), SafetyDistances::standard is touch-only towards environment and robot, without special pairs, in the given mode.  The geometry of parry3d queries and of the bounding-box pre-filter is not decided.')
+               '(R10.9) the helpers a safety table is built with: SafetyDistances::distances files every value under its own pair (interpreted on three pairs), SafetyDistances::standard is touch-only towards environment and robot, without special pairs, in the given mode.  (R10.10) the public queries evaluate forward_with_joint_poses of their own joints argument, cast element by element, and reported pairs are converted member by member in order.  The geometry of parry3d queries and of the bounding-box pre-filter is not decided.')
 NOT_DECIDED = 'correctness of parry3d intersection/distance queries, the f64->f32 cast, geometric adequacy of the AABB pre-filter'
 ASSUMPTIONS = ['HashSet::contains / HashMap::get / Vec::push behave as documented (transfer functions of the interpreter)',
                'parry3d::query::intersection_test and distance are symmetric, exact geometric predicates']
@@ -102,9 +102,69 @@ def _safety_tables(ctx, prog):
                           found='to_environment=%s to_robot_default=%s special=%s mode=%s' % (env, rob, show(sp, maxdepth=2), show(vals.get('mode'), maxdepth=2)))
 
 
+def _query_inputs(ctx, prog):
+    """R10.10: the public queries look at the configuration they are asked about: the link poses handed to the pair enumeration
+    are kinematics.forward_with_joint_poses(<the joints argument>) cast element by element, and the reported pairs keep their
+    two members in the order the decision gave them."""
+    ctx.rule('R10.10', 'collides / near / collision_details evaluate forward_with_joint_poses of their own joints argument (cast element-wise); reported pairs are converted member by member, in order')
+    n = 0
+    for name in ('collides', 'near', 'collision_details'):
+        bs = [b for p_, b in prog.bodies.items() if p_.endswith('collisions::RobotBody::' + name)]
+        if len(bs) != 1:
+            continue
+        b = bs[0]
+        ctx.fn(b)
+        jp = [k for k in range(1, b.arg_count + 1) if '[f64; 6]' in b.local_ty(k)]
+        kp = [k for k in range(1, b.arg_count + 1) if 'dyn' in b.local_ty(k) and 'Kinematics' in b.local_ty(k)]
+        dets = [(bi2, t2) for bi2, t2 in b.calls() if cname(callee_name(t2)).startswith('RobotBody::detect')]
+        ok = len(jp) == 1 and len(kp) == 1 and len(dets) == 1
+        found = None
+        fk = []
+        if ok:
+            # the poses handed to the enumeration, helpers written out: array::map(kinematics.forward_with_joint_poses(joints), |p| p.cast())
+            poses = strip(util.inline_calls(prog, b.op_term(dets[0][1]['args'][1], (dets[0][0], None)), depth=3))
+            ms = [poses] if isinstance(poses, tuple) and poses[0] == 'call' and cname(poses[1]) == 'array::map' else \
+                mir.subterms(poses, lambda y: y[0] == 'call' and cname(y[1]) == 'array::map')
+            good = False
+            for m in ms:
+                src = strip(m[2])
+                if isinstance(src, tuple) and src[0] == 'call' and cname(src[1]) == 'Kinematics::forward_with_joint_poses' and len(src) == 4:
+                    found = 'forward_with_joint_poses(%s) on %s' % (show(src[3], maxdepth=2), show(src[2], maxdepth=2))
+                    cb, caps = util.closure_of_term(prog, m[3])
+                    crv = [strip(x[0]) for x in cb.return_values()] if cb is not None else []
+                    def root_param(x):
+                        x = strip(x)
+                        while isinstance(x, tuple) and x[0] in ('ref', 'deref', 'cast'):
+                            x = strip(x[1])
+                        return util.param_index(x)
+                    good = root_param(src[3]) == jp[0] and root_param(src[2]) == kp[0] and len(crv) == 1 and isinstance(crv[0], tuple) and \
+                        crv[0][0] == 'call' and cname(crv[0][1]).split('::')[-1] == 'cast' and util.param_index(crv[0][2]) == 2
+            ok = good
+        n += 1
+        ctx.check(ok, 'R10.10', name + '/poses', b.where(dets[0][0]) if dets else b.where(0), b.path,
+                  'the query must enumerate the pairs at the link poses of the joints it is asked about (forward_with_joint_poses(joints), cast element by element)', found=found)
+    ctx.floor('R10.10 queries', n, 3)
+    # the conversion of the reported pairs
+    dc = [b for p_, b in prog.bodies.items() if p_.endswith('collisions::RobotBody::detect_collisions')]
+    if len(dc) == 1:
+        for cb in util.closure_bodies(prog, dc[0].path):
+            crv = [strip(x[0]) for x in cb.return_values()]
+            if len(crv) == 1 and isinstance(crv[0], tuple) and crv[0][0] == 'agg' and len(crv[0]) == 4:
+                ctx.fn(cb)
+                comps = []
+                for e in crv[0][2:]:
+                    e = strip(e)
+                    while isinstance(e, tuple) and e[0] == 'cast':
+                        e = strip(e[1])
+                    comps.append(e[2] if isinstance(e, tuple) and e[0] == 'fld' and util.param_index(e[1]) is not None else None)
+                ctx.check(comps == ['0', '1'], 'R10.10', 'pair-conversion', cb.where(0), cb.path,
+                          'a reported pair must be converted member by member, in order', found=str(comps))
+
+
 def run(ctx):
     prog = ctx.prog
     _safety_tables(ctx, prog)
+    _query_inputs(ctx, prog)
     ctx.rule('R10.1', 'extracted pair table == specification (10 non-adjacent link pairs; link x env; tool x env; tool x links 1-4; base x links 2-6; tool x base), each once')
     ctx.rule('R10.2', 'with exactly one pair exempt (NEVER_COLLIDES) the evaluated table loses exactly that pair (either key order; also pairs naming J1 and adjacent pairs)')
     ctx.rule('R10.3', 'each task pairs reporting index k with the shape and transform of body k')
